@@ -936,6 +936,34 @@ def extract_limits(src: Path) -> str:
     except Exception as e:
         fail("limits h2.py", f"{type(e).__name__}: {e}")
 
+    # ---- where a request is counted towards the worker's max_requests: `await self.context.mark_request()` sits in the ONE place
+    # every new stream goes through - `_create_stream` of each protocol (HTTP/2: received HEADERS, the HTTP/1.1 request of an
+    # `Upgrade: h2c` connection handed to `initiate`, pushed streams), as a statement of its own (no condition around it) ----
+    for tag, rel, clsname in (("h11", "protocol/h11.py", "H11Protocol"), ("h2", "protocol/h2.py", "H2Protocol")):
+        try:
+            ptree = parse(src / rel)
+            cls = find_def(ptree, clsname)
+            sites = []
+            for f in cls.body:  # type: ignore
+                if isinstance(f, (ast.FunctionDef, ast.AsyncFunctionDef)):
+                    for st in ast.walk(f):
+                        if isinstance(st, ast.Call) and ast.unparse(st.func) == "self.context.mark_request":
+                            top = any(isinstance(x, ast.Expr) and isinstance(x.value, ast.Await) and x.value.value is st for x in f.body)
+                            sites.append((f.name, top))
+            if len(sites) != 1:
+                fail(f"{tag}MarkRequestIn", f"`self.context.mark_request()` is called {len(sites)} times in {clsname} ({[x[0] for x in sites]}); expected exactly once")
+            else:
+                emit(f"def {tag}MarkRequestIn : String := {q(sites[0][0])}   -- the method of {clsname} that awaits `self.context.mark_request()`")
+                emit(f"def {tag}MarkRequestUnconditional : Bool := {'true' if sites[0][1] else 'false'}   -- a top-level statement of that method")
+            callers = sorted(f.name for f in cls.body if isinstance(f, (ast.FunctionDef, ast.AsyncFunctionDef)) and any(  # type: ignore
+                isinstance(n, ast.Call) and ast.unparse(n.func) == "self._create_stream" for n in ast.walk(f)))
+            emit(f"def {tag}CreateStreamCallers : List String := [" + ", ".join(q(x) for x in callers) + "]")
+            news = sorted({f.name for f in cls.body if isinstance(f, (ast.FunctionDef, ast.AsyncFunctionDef)) for n in ast.walk(f)  # type: ignore
+                           if isinstance(n, ast.Call) and ast.unparse(n.func) in ("HTTPStream", "WSStream")})
+            emit(f"def {tag}StreamConstructedIn : List String := [" + ", ".join(q(x) for x in news) + "]   -- methods that construct HTTPStream / WSStream")
+        except Exception as e:
+            fail(f"{tag}MarkRequestIn", f"{type(e).__name__}: {e}")
+
     # ---- the installed hpack / h2: header-list accounting and the concurrent-stream rule --------------------------
     try:
         tbl = parse(_site_packages_file("hpack", "table.py"))
